@@ -17,7 +17,7 @@
    `same s a b`       : a and b have the same union-find root in s.          *)
 From Coq Require Import ZArith List Bool Relations.
 From CSS Require Import Equiv.Model Equiv.Ref Equiv.UF Equiv.Inv Equiv.Hist Equiv.Path Equiv.Cov
-  Equiv.Complete Equiv.Total.
+  Equiv.Complete Equiv.Total Equiv.Neutral.
 From CSS Require Gen.EquivHeaviest.
 From CSS Require Import Equiv.GenBridge.
 Import ListNotations.
@@ -271,8 +271,10 @@ Proof.
 Qed.
 
 (* ... and still after any number of queries (equivalent / is_verified / db[x]
-   / find_path) issued after connect_cycles: this is the situation in which
-   the correspondence and the engine read the database *)
+   / find_path) issued after connect_cycles.  (NOT yet the situation in which
+   RuleDBBase reads the database: pruned_dict also calls set_verified for every
+   surviving label before has_specification / the finders read equivdb[root];
+   that situation is C06_classes_are_sccs_after_neutral below.) *)
 Theorem C06_classes_are_sccs_after_queries : forall ops qs s rs a b s' e,
   Forall is_query qs ->
   exec order init (ops ++ Connect :: qs) = Some (s, rs) ->
@@ -285,6 +287,66 @@ Proof.
   - intros He. subst e. exact (C06_sound _ s rs a b s' E Q).
   - intros (Rab & Rba). apply (equivalent_spec _ _ _ _ _ Q).
     exact (complete_after_connect_queries order order_In ops qs s rs a b F E Rab Rba).
+Qed.
+
+
+(* 6. partition-neutral operations.  set_verified changes neither the roots (hence not the
+      partition) nor the recorded edges; so "classes = strongly connected components" still
+      holds after connect_cycles followed by ANY number of set_verified calls, queries and
+      further connect_cycles calls: this IS the state in which RuleDBBase reads
+      representatives (rules_up_to_equivalence reads right after connect_cycles; pruned_dict
+      then calls set_verified for every surviving label; has_specification and the finders
+      read equivdb[root] after that; a cached pruned dictionary is read after arbitrarily
+      many further has_specification / is_verified / rules_up_to_equivalence calls). *)
+Theorem C06_set_verified_keeps_partition : forall s a s',
+  set_verified s a = Some s' ->
+  (forall x q, root s' x q <-> root s x q) /\ (forall x y, same s' x y <-> same s x y) /\
+  (forall x y, edge (vertices s') x y <-> edge (vertices s) x y).
+Proof.
+  intros s a s' H. pose proof (set_verified_rsame _ _ _ H) as P.
+  split; [apply P|]. split; [intros x y; apply rsame_same; auto|].
+  intros x y. unfold edge. destruct P as (_ & C). rewrite C. tauto.
+Qed.
+
+Theorem C06_classes_are_sccs_after_neutral : forall ops qs s rs a b s' e,
+  Forall is_neutral2 qs ->
+  exec order init (ops ++ Connect :: qs) = Some (s, rs) ->
+  equivalent s a b = Some (s', e) ->
+  (e = true <->
+   clos_refl_trans Z (recorded (ops ++ Connect :: qs)) a b /\
+   clos_refl_trans Z (recorded (ops ++ Connect :: qs)) b a).
+Proof.
+  intros ops qs s rs a b s' e F E Q. split.
+  - intros He. subst e. exact (C06_sound _ s rs a b s' E Q).
+  - intros (Rab & Rba). apply (equivalent_spec _ _ _ _ _ Q).
+    exact (complete_after_connect_neutral2 order order_In ops qs s rs a b F E Rab Rba).
+Qed.
+
+(* the recorded graph is not changed by these operations either: the right-hand side above
+   is mutual reachability in the graph recorded by `ops` *)
+Theorem C06_neutral_records_nothing : forall ops qs a b,
+  Forall is_neutral2 qs ->
+  (recorded (ops ++ Connect :: qs) a b <-> recorded ops a b).
+Proof.
+  intros ops qs a b F. apply neutral2_recorded_app. constructor; [right; reflexivity|exact F].
+Qed.
+
+(* 7. cycle detection is idempotent: a further connect_cycles on such a state changes no
+      root, no verified root and no edge (every merge it issues is inside a class) *)
+Theorem C06_connect_cycles_idempotent : forall ops qs s rs s',
+  Forall is_neutral2 qs ->
+  exec order init (ops ++ Connect :: qs) = Some (s, rs) ->
+  connect_cycles order s = Some s' ->
+  (forall x q, root s' x q <-> root s x q) /\
+  (forall v, In v (verified s') <-> In v (verified s)) /\
+  (forall x y, edge (vertices s') x y <-> edge (vertices s) x y).
+Proof.
+  intros ops qs s rs s' F E CC.
+  pose proof (reach_inv order order_In _ _ _ E) as I.
+  assert (C : hcompl (ops ++ Connect :: qs) s).
+  { intros a b R1 R2. eapply (complete_after_connect_neutral2 order order_In ops qs); eauto. }
+  destruct (connect_cycles_stab order order_In _ _ _ s s' I (hcompl_compl _ _ I C) CC) as ((A & B) & V).
+  split; auto. split; auto. intros x y. unfold edge. rewrite B. tauto.
 Qed.
 
 Theorem C06_complete_partial : forall ops s rs a b,
@@ -822,6 +884,47 @@ Proof.
   exact (C06_classes_are_sccs_after_queries order order_In ops qs s rs a b s' e F E Q).
 Qed.
 
+
+Theorem C06_classes_are_sccs_after_neutral_total : forall ops qs a b,
+  Forall is_neutral2 qs ->
+  exists s rs s' e, exec order init (ops ++ Connect :: qs) = Some (s, rs) /\
+    equivalent s a b = Some (s', e) /\
+    (e = true <->
+     clos_refl_trans Z (recorded ops) a b /\ clos_refl_trans Z (recorded ops) b a).
+Proof.
+  intros ops qs a b F. destruct (C06_exec_total_ex (ops ++ Connect :: qs)) as (s & rs & E).
+  destruct (equivalent_total s a b (exec_wf order order_len _ _ _ _ wf_init E))
+    as (s' & e & Q & _).
+  exists s, rs, s', e. split; auto. split; auto.
+  rewrite (C06_classes_are_sccs_after_neutral order order_In ops qs s rs a b s' e F E Q).
+  assert (X : forall u v, clos_refl_trans Z (recorded (ops ++ Connect :: qs)) u v <->
+                          clos_refl_trans Z (recorded ops) u v).
+  { apply clos_rt_iff. intros u v. apply C06_neutral_records_nothing; auto. }
+  rewrite !X. reflexivity.
+Qed.
+
+(* 8. a PURE representative function for the consumers (C05, C14, C02, C13 take a function
+      Z -> Z): repf s x is the label db[x] returns (without the path compression).  On every
+      reachable state it is total, it is what every later lookup returns (lookups do not
+      move roots), and two labels have the same representative iff they are in the same
+      class. *)
+Theorem C06_representative_function : forall ops s rs,
+  exec order init ops = Some (s, rs) ->
+  (forall x, root s x (repf s x)) /\
+  (forall x s1 r, find s x = Some (s1, r) -> r = repf s x /\ forall y, repf s1 y = repf s y) /\
+  (forall a b, repf s a = repf s b <-> same s a b) /\
+  (forall x, repf s (repf s x) = repf s x).
+Proof.
+  intros ops s rs E. pose proof (exec_wf order order_len _ _ _ _ wf_init E) as W.
+  split; [intros x; apply repf_root; auto|]. split; [|split].
+  - intros x s1 r F. split; [symmetry; eapply repf_find; eauto|].
+    intros y. apply repf_rsame; auto.
+    + destruct (find_total s x W) as (s1' & r' & F' & W1 & _). congruence.
+    + apply pres_rsame. apply (find_spec _ _ _ _ F).
+  - intros a b. apply repf_same; auto.
+  - intros x. apply repf_idem; auto.
+Qed.
+
 Theorem C06_verified_total : forall ops a,
   exists s rs s' v, exec order init ops = Some (s, rs) /\ is_verified s a = Some (s', v) /\
     (v = true <-> exists b, marked ops b /\ same s a b).
@@ -876,6 +979,86 @@ Proof.
   apply cn_step; [discriminate|]. apply cn_step; [discriminate|]. apply cn_root. reflexivity.
 Qed.
 
+
+(* --- partition-neutral operations (audit history a6): after connect_cycles the engine's
+   sequence set_verified(8); is_verified(3); set_verified(5); connect_cycles again; db[9] *)
+Definition a6_ns : list op := [SetVerified 8; QVerified 3; SetVerified 5; Connect; QFind 9].
+Definition a6_sN : db := Eval vm_compute in fst (a6_run (a6_ops ++ Connect :: a6_ns)).
+Definition a6_rsN : list res := Eval vm_compute in snd (a6_run (a6_ops ++ Connect :: a6_ns)).
+Lemma a6_execN : exec isort init (a6_ops ++ Connect :: a6_ns) = Some (a6_sN, a6_rsN).
+Proof. vm_compute. reflexivity. Qed.
+Lemma a6_ns_neutral : Forall is_neutral2 a6_ns.
+Proof.
+  unfold a6_ns. constructor; [left; right; eexists; reflexivity|].
+  constructor; [left; left; exact I|]. constructor; [left; right; eexists; reflexivity|].
+  constructor; [right; reflexivity|]. constructor; [left; left; exact I|]. constructor.
+Qed.
+
+Example C06_set_verified_keeps_partition_nonvacuous :
+  exists s', set_verified a6_sC 5 = Some s' /\ verified s' <> verified a6_sC /\
+    (forall x q, root s' x q <-> root a6_sC x q) /\ (forall x y, same s' x y <-> same a6_sC x y) /\
+    (forall x y, edge (vertices s') x y <-> edge (vertices a6_sC) x y).
+Proof.
+  eexists. split; [vm_compute; reflexivity|]. split; [vm_compute; discriminate|].
+  apply (C06_set_verified_keeps_partition a6_sC 5). vm_compute. reflexivity.
+Qed.
+
+Example C06_classes_are_sccs_after_neutral_nonvacuous :
+  (true = true <->
+   clos_refl_trans Z (recorded (a6_ops ++ Connect :: a6_ns)) 3 8 /\
+   clos_refl_trans Z (recorded (a6_ops ++ Connect :: a6_ns)) 8 3) /\
+  (false = true <->
+   clos_refl_trans Z (recorded (a6_ops ++ Connect :: a6_ns)) 5 1 /\
+   clos_refl_trans Z (recorded (a6_ops ++ Connect :: a6_ns)) 1 5).
+Proof.
+  split.
+  - eapply (C06_classes_are_sccs_after_neutral isort isort_In a6_ops a6_ns a6_sN a6_rsN 3 8 _ true
+              a6_ns_neutral a6_execN). vm_compute. reflexivity.
+  - eapply (C06_classes_are_sccs_after_neutral isort isort_In a6_ops a6_ns a6_sN a6_rsN 5 1 _ false
+              a6_ns_neutral a6_execN). vm_compute. reflexivity.
+Qed.
+
+Example C06_neutral_records_nothing_nonvacuous :
+  recorded (a6_ops ++ Connect :: a6_ns) 2 3 <-> recorded a6_ops 2 3.
+Proof. exact (C06_neutral_records_nothing a6_ops a6_ns 2 3 a6_ns_neutral). Qed.
+
+(* a THIRD connect_cycles on the state reached above: nothing moves; on the state BEFORE
+   the first connect_cycles roots do move (3's root goes from 3 to 2) *)
+Example C06_connect_cycles_idempotent_nonvacuous :
+  exists s', connect_cycles isort a6_sN = Some s' /\
+    (forall x q, root s' x q <-> root a6_sN x q) /\
+    (forall v, In v (verified s') <-> In v (verified a6_sN)) /\
+    (forall x y, edge (vertices s') x y <-> edge (vertices a6_sN) x y).
+Proof.
+  eexists. split; [vm_compute; reflexivity|].
+  eapply (C06_connect_cycles_idempotent isort isort_In a6_ops a6_ns a6_sN a6_rsN _ a6_ns_neutral a6_execN).
+  vm_compute. reflexivity.
+Qed.
+Example C06_connect_cycles_idempotent_value :
+  repf a6_s 3 = 3 /\ repf a6_sC 3 = 2 /\ repf a6_sN 3 = 2 /\ verified a6_sN = [4; 2; 5].
+Proof. vm_compute. auto. Qed.
+
+Example C06_representative_function_nonvacuous :
+  (forall x, root a6_sC x (repf a6_sC x)) /\
+  (forall x s1 r, find a6_sC x = Some (s1, r) -> r = repf a6_sC x /\ forall y, repf s1 y = repf a6_sC y) /\
+  (forall a b, repf a6_sC a = repf a6_sC b <-> same a6_sC a b) /\
+  (forall x, repf a6_sC (repf a6_sC x) = repf a6_sC x).
+Proof. exact (C06_representative_function isort isort_len (a6_ops ++ [Connect]) a6_sC a6_rsC a6_execC). Qed.
+Example C06_representative_function_value :
+  map (repf a6_sC) [1; 2; 3; 4; 5; 6; 7; 8; 9] = [2; 2; 2; 2; 5; 7; 7; 2; 9] /\ same a6_sC 3 8.
+Proof.
+  split; [vm_compute; reflexivity|].
+  apply (proj1 (proj2 (proj2 C06_representative_function_nonvacuous)) 3 8). vm_compute. reflexivity.
+Qed.
+
+Example C06_classes_are_sccs_after_neutral_total_isort : forall ops qs a b,
+  Forall is_neutral2 qs ->
+  exists s rs s' e, exec isort init (ops ++ Connect :: qs) = Some (s, rs) /\
+    equivalent s a b = Some (s', e) /\
+    (e = true <->
+     clos_refl_trans Z (recorded ops) a b /\ clos_refl_trans Z (recorded ops) b a).
+Proof. exact (C06_classes_are_sccs_after_neutral_total isort isort_In isort_len). Qed.
+
 (* ================= the union-by-weight choice is the source's (translator) =================
    The root that survives a union is the source's expression
    `max(((self.weights[r], r) for r in roots))[1]` of _set_equivalent
@@ -919,3 +1102,9 @@ Print Assumptions C06_classes_are_sccs_after_queries_total.
 Print Assumptions C06_verified_total.
 Print Assumptions C06_path_total.
 Print Assumptions C06_total_needs_order_len.
+Print Assumptions C06_set_verified_keeps_partition.
+Print Assumptions C06_classes_are_sccs_after_neutral.
+Print Assumptions C06_neutral_records_nothing.
+Print Assumptions C06_connect_cycles_idempotent.
+Print Assumptions C06_classes_are_sccs_after_neutral_total.
+Print Assumptions C06_representative_function.
